@@ -34,7 +34,7 @@ Definition gio_bind {A B} (x : gio_res A) (f : A -> gio_res B) : gio_res B :=
   match x with GOk a => f a | GRaise e => GRaise e end.
 
 (* ---------- graphs ---------- *)
-Inductive gio_kind := KSimple | KDirected | KBipartite.
+Inductive gio_kind := GioSimple | GioDirected | GioBipartite.
 (* io_n: number of vertices (left vertices when bipartite); io_r: right vertices (0 otherwise) *)
 Record iograph := mkIOG { io_kind : gio_kind; io_name : gt_str; io_n : Z; io_r : Z; io_edges : list (Z * Z) }.
 
@@ -54,7 +54,7 @@ Definition gio_mem (e : Z * Z) (l : list (Z * Z)) : bool := existsb (gio_pair_eq
 
 Definition gio_has_edge (G : iograph) (u v : Z) : bool :=
   match io_kind G with
-  | KSimple => gio_mem (Z.min u v, Z.max u v) (io_edges G)
+  | GioSimple => gio_mem (Z.min u v, Z.max u v) (io_edges G)
   | _ => gio_mem (u, v) (io_edges G)
   end.
 
@@ -67,15 +67,15 @@ Definition gio_with_edges (G : iograph) (es : list (Z * Z)) : iograph :=
 
 Definition gio_add_edge (G : iograph) (u v : Z) : gio_res iograph :=
   match io_kind G with
-  | KSimple =>
+  | GioSimple =>
     if (1 <=? u) && (u <=? io_n G) && (1 <=? v) && (v <=? io_n G) && negb (u =? v)
     then GOk (gio_with_edges G (gio_insert (Z.min u v, Z.max u v) (io_edges G)))
     else GRaise EValueError
-  | KDirected =>
+  | GioDirected =>
     if (1 <=? u) && (u <=? io_n G) && (1 <=? v) && (v <=? io_n G)
     then GOk (gio_with_edges G (gio_insert (u, v) (io_edges G)))
     else GRaise EValueError
-  | KBipartite =>
+  | GioBipartite =>
     if (1 <=? u) && (u <=? io_n G) && (1 <=? v) && (v <=? io_r G)
     then GOk (gio_with_edges G (gio_insert (u, v) (io_edges G)))
     else GRaise EValueError
@@ -230,7 +230,7 @@ Definition gio_read_kthb (text : gt_str) : gio_res iograph :=
   gio_bind (gio_kthb_body size (snd hd) 1 size []) (fun st =>
   let L := fst st - 1 in
   let R := size - fst st + 1 in
-  gio_bind (gio_new KBipartite (gio_kth_name ls) L R) (fun G =>
+  gio_bind (gio_new GioBipartite (gio_kth_name ls) L R) (fun G =>
   gio_add_edges G (gio_dict_edges L (snd st))))).
 
 (* ---------- dimacs ---------- *)
@@ -346,7 +346,7 @@ Definition gio_read_matrix (text : gt_str) : gio_res iograph :=
   gio_bind (gio_mpop s) (fun a =>
   gio_bind (gio_mpop (snd a)) (fun b =>
   let n := fst a in let m := fst b in
-  gio_bind (gio_new KBipartite [] n m) (fun G =>
+  gio_bind (gio_new GioBipartite [] n m) (fun G =>
   gio_bind (gio_matrix_entries (snd b) 0 (n * m) m G) (fun r =>
   match snd r with
   | [] => GOk (fst r)
@@ -361,7 +361,7 @@ Definition gio_write_kth (G : iograph) : gt_str :=
   [gt_c; gt_sp] ++ io_name G ++ [gt_nl] ++
   gt_print_Z (io_n G) ++ [gt_nl] ++
   concat (map (fun v => gio_kth_row v (match io_kind G with
-                                       | KDirected => gio_preds G v
+                                       | GioDirected => gio_preds G v
                                        | _ => gio_neighbors G v
                                        end)) (gt_range1 (io_n G))) ++ [gt_nl].
 
@@ -400,7 +400,7 @@ Definition gio_supported (has_dot : bool) (t : gio_gtype) : list gio_fmt :=
   end.
 
 Definition gio_kind_of (t : gio_gtype) : gio_kind :=
-  match t with TSimple => KSimple | TBipartite => KBipartite | _ => KDirected end.
+  match t with TSimple => GioSimple | TBipartite => GioBipartite | _ => GioDirected end.
 
 Definition gio_read_graph (has_dot : bool) (t : gio_gtype) (f : gio_fmt) (text : gt_str) : gio_res iograph :=
   if negb (existsb (gio_fmt_eqb f) (gio_supported has_dot t)) then GRaise EValueError
@@ -479,7 +479,7 @@ Definition gio_bip_from_nx {A} (eqb : A -> A -> bool) (name : gt_str)
   else
     let side0 := map fst (filter (fun nc => snd nc =? 0) nodes) in
     let side1 := map fst (filter (fun nc => snd nc =? 1) nodes) in
-    gio_bind (gio_new KBipartite name (Z.of_nat (length side0)) (Z.of_nat (length side1))) (fun B =>
+    gio_bind (gio_new GioBipartite name (Z.of_nat (length side0)) (Z.of_nat (length side1))) (fun B =>
     (fix go (B : iograph) (es : list (A * A)) : gio_res iograph :=
        match es with
        | [] => GOk B
